@@ -131,7 +131,7 @@ func lwDefs() []lwDef {
 		{name: "sand20-short-volumetric-sampling", soil: "sand20", gw: 99, et: 3, start: s1, days: 560, initW: 0.6, initN: 25, measOff: 210, measMode: 3, measShort: true,
 			rot:  []proj.CropEntry{{Crop: "WW", Sow: "2001-09-25", Harvest: "2002-08-05", Rex: 50}, {Crop: "SM", Sow: "2003-04-25", Harvest: "2003-10-10"}},
 			fert: []proj.Fert{{Date: "2002-03-01", Amount: 60, Kind: "KAS"}, {Date: "2002-04-10", Amount: 60, Kind: "KAS"}}},
-		{name: "loam-station-heights-potmin1", soil: "loam12", gw: 99, et: 3, start: s1, days: 560, initW: 0.6, initN: 30, heights: &[3]float64{320, 10, 0},
+		{name: "loam-station-heights-potmin1", soil: "loam12", gw: 99, et: 3, start: s1, days: 560, initW: 0.6, initN: 30, heights: &[3]float64{320, 10, -99.9}, // (CO2 slot: the missing-value code instead of dashes)
 			cfg:  map[string]string{"PotMineralisation": "1", "CO2method": "1", "CO2concentration": "500"},
 			rot:  []proj.CropEntry{{Crop: "WW", Sow: "2001-09-25", Harvest: "2002-08-05", Rex: 50}, {Crop: "K", Sow: "2003-04-20", Harvest: "2003-09-20"}},
 			fert: []proj.Fert{{Date: "2002-03-10", Amount: 90, Kind: "KAS"}}},
